@@ -628,7 +628,26 @@ func runC16(c *core.Ctx) {
 		_ = uinfo
 		for i, e := range keeps {
 			st := u.Flow().In[e]
-			c.Check("cache-entry-tied-to-current-hash", fmt.Sprintf("%s/keep#%d", u.Name, i+1), c.P.Pos(e.Pos()), core.CondOutcome(st, hashEq) == 1,
+			// the comparison may be one conjunct of a larger test and its operands may be hoisted into locals
+			tied := core.CondOutcome(st, hashEq) == 1
+			for k, fct := range st {
+				if k.Root != nil || !strings.HasPrefix(k.Path, "cond:") || fct.Def == nil || fct.Bool == 0 {
+					continue
+				}
+				var atoms []atomB
+				decompose(fct.Def, fct.Bool == 1, &atoms)
+				for _, a := range atoms {
+					be, ok := ast.Unparen(a.x).(*ast.BinaryExpr)
+					if !ok || !(be.Op == token.EQL && a.val || be.Op == token.NEQ && !a.val) {
+						continue
+					}
+					l, r := core.ExprStr(derefLocal(u, be.X)), core.ExprStr(derefLocal(u, be.Y))
+					if strings.HasSuffix(l, ".bhash") && strings.HasSuffix(r, ".Hash") || strings.HasSuffix(r, ".bhash") && strings.HasSuffix(l, ".Hash") {
+						tied = true
+					}
+				}
+			}
+			c.Check("cache-entry-tied-to-current-hash", fmt.Sprintf("%s/keep#%d", u.Name, i+1), c.P.Pos(e.Pos()), tied,
 				"updateAuthCache keeps a cached credential without the test `cached.bhash == userInfo.Hash`: after a password change the old password keeps working through the cache")
 		}
 		// the new cache replaces the old one
